@@ -107,15 +107,15 @@ type placementStaticPath struct {
 
 // Check the ACL
 func checkACL(acl string) error {
-	// trim any white space
-	acl = strings.TrimSpace(acl)
 	// handle special cases: deny and wildcard
 	if len(acl) == 0 || acl == common.Wildcard {
 		return nil
 	}
 
 	// should have no more than two groups defined
-	fields := strings.Fields(acl)
+	// The ACL is parsed without trimming when the queue is created: a leading, trailing or double space gives an
+	// extra (empty) field and fails the load. Use the same split here.
+	fields := strings.Split(acl, common.Space)
 	if len(fields) > 2 {
 		return fmt.Errorf("multiple spaces found in ACL: '%s'", acl)
 	}
@@ -418,6 +418,24 @@ func checkPlacementRule(rule PlacementRule) error {
 	// name must be valid go as it normally maps 1:1 to an object
 	if !RuleNameRegExp.MatchString(rule.Name) {
 		return fmt.Errorf("invalid rule name %s, a name must be a valid identifier", rule.Name)
+	}
+	// the settings of a known rule must allow the rule to be created when the config is loaded
+	switch strings.ToLower(rule.Name) {
+	case types.Tag:
+		if rule.Value == "" {
+			return fmt.Errorf("a tag queue rule must have a tag name set")
+		}
+	case types.Fixed:
+		if rule.Value == "" {
+			return fmt.Errorf("a fixed queue rule must have a queue name set")
+		}
+		for _, part := range strings.Split(strings.ToLower(rule.Value), DOT) {
+			if err := IsQueueNameValid(part); err != nil {
+				return err
+			}
+		}
+	case types.Recovery:
+		return fmt.Errorf("recovery rule cannot be part of the config")
 	}
 	// check the parent rule
 	if rule.Parent != nil {
